@@ -375,3 +375,25 @@ Section FramesFromOutcome.
     - intros a Hl. unfold live in Hl. simpl in Hl. lia.
   Qed.
 End FramesFromOutcome.
+
+(* the calls that return at once *)
+Section Noops.
+  Variable H : pystr -> pystr.
+  Variable ct : ctable.
+  Lemma attach_attached_noop s a : detached s a = false -> step H ct s (OAttach a) = (s, RNone).
+  Proof. intros E. simpl. unfold op_attach. rewrite E. reflexivity. Qed.
+  Lemma detach_detached_noop s a os : detached s a = true -> op_detach os s a = Ok s true.
+  Proof. intros E. unfold op_detach, fuel_of. simpl. rewrite E. reflexivity. Qed.
+  Lemma detach_subtree_noop s a os :
+    detached s a = false -> is_attached_root s a = false -> op_detach os s a = Ok s false.
+  Proof. intros E1 E2. unfold op_detach, fuel_of. simpl. rewrite E1, E2. reflexivity. Qed.
+  Theorem inv_step_noops s a :
+    (detached s a = false -> step H ct s (OAttach a) = (s, RNone)) /\
+    (detached s a = true -> step H ct s (ODetach a) = (s, RBool true)) /\
+    (detached s a = false -> is_attached_root s a = false -> step H ct s (ODetach a) = (s, RBool false)).
+  Proof.
+    split; [apply attach_attached_noop|]. split.
+    - intros E. simpl. rewrite detach_detached_noop by exact E. reflexivity.
+    - intros E1 E2. simpl. rewrite detach_subtree_noop by assumption. reflexivity.
+  Qed.
+End Noops.
